@@ -121,8 +121,26 @@ LOCAL OnRunReturn(e, m0) ==
 \* held by a target that waits for its dependencies (or was lost) -- the limit-of-one clause of C09
 LOCAL OnDeadlock(e, m0) ==
     LET m1 == V(m0, "C05", "deadlock: every goroutine blocked, build not finished", "")
-    IN  VIf(m1, m0.lastCap >= 0 /\ m0.active = 0 /\ m0.lastCap < m0.cfg.limit /\ ~Cyclic(m0.cfg),
+        m2 == VIf(m1, m0.lastCap >= 0 /\ m0.active = 0 /\ m0.lastCap < m0.cfg.limit /\ ~Cyclic(m0.cfg),
             "C09", "every target is waiting yet slots are held: waiting on dependencies holds a slot", "")
+    \* a goroutine parked inside the gate although a slot is free: the freed slot never reached it
+    IN  VIf(m2, "atgate" \in DOMAIN e /\ e.atgate > 0 /\ m0.lastCap > 0,
+            "C09", "a target waits at the gate although a slot is free: the freed slot is lost", "")
+
+\* free-running build that never finished; the harness reports how many goroutines sit in the
+\* gate and the free-slot count read from it
+LOCAL OnHang(e, m0) ==
+    LET m1 == V(m0, "C05", "build hangs", "")
+    IN  VIf(m1, "atgate" \in DOMAIN e /\ e.atgate > 0 /\ e.cap > 0,
+            "C09", "a target waits at the gate although a slot is free: the freed slot is lost", "")
+
+\* a leaf made e.n gate round trips; e.peak is the largest number of executing targets it saw
+\* while holding a slot
+\* while holding a slot. Between SpinBegin and Spin the leaf is counted by the harness, not here.
+LOCAL OnSpin(e, m0) ==
+    LET m1 == [m0 EXCEPT !.active = @ + 1]
+        m2 == VIf(m1, e.peak > m0.cfg.limit, "C09", "more targets active than the limit (gate round trips)", e.l)
+    IN  VIf(m2, m2.active > m2.cfg.limit, "C09", "more targets active than the limit", e.l)
 
 LOCAL OnGate(e, m00) ==
     LET m0 == [m00 EXCEPT !.lastCap = e.cap]
@@ -149,7 +167,9 @@ Mon(e, m0) ==
                      [] e.ev = "Gate"      -> OnGate(e, m0)
                      [] e.ev = "Final"     -> OnFinal(e, m0)
                      [] e.ev = "Deadlock"  -> OnDeadlock(e, m0)
-                     [] e.ev = "Hang"      -> V(m0, "C05", "build hangs", "")
+                     [] e.ev = "Hang"      -> OnHang(e, m0)
+                     [] e.ev = "SpinBegin" -> [m0 EXCEPT !.active = @ - 1]
+                     [] e.ev = "Spin"      -> OnSpin(e, m0)
                      [] OTHER              -> m0
     IN  [m1 EXCEPT !.n = @ + 1]
 
